@@ -222,6 +222,126 @@ def wfB : NExpr → Bool
   | .paren e => wfB e
   | .call _ args => args.attach.all (fun ⟨a, _⟩ => wfB a)
 
+/-! ### `qexpr`: quantity expressions -/
+def parseCanonTriples (s : String) : List (UnitKey × Int × Int) :=
+  if s == "-" then [] else
+  (s.splitOn ",").filterMap fun e =>
+    match e.splitOn ":" with
+    | [k, p, x] => some (parseUnitKey k, parseInt p, parseInt x)
+    | _ => none
+
+
+def parseTerms (s : String) : List Spec.Quantity.RTerm :=
+  if s == "-" then [] else
+  (s.splitOn ",").filterMap fun e =>
+    match e.splitOn ":" with
+    | [p, n, k] => some { pfxLit := hexDecode p, nameLit := hexDecode n, power := parseInt k }
+    | _ => none
+
+open Spec.Quantity in
+partial def parseQExpr : List String → Option (QExpr × List String)
+  | [] => none
+  | t :: rest =>
+    match t.toList with
+    | 'L' :: h =>
+      match Spec.Decimal.parse (hexDecode (String.ofList h)) with
+      | some l => some (.num l, rest)
+      | none => none
+    | 'Q' :: h =>
+      match (String.ofList h).splitOn ";" with
+      | [lh, ts] =>
+        match Spec.Decimal.parse (hexDecode lh) with
+        | some l => some (.qty l (parseTerms ts), rest)
+        | none => none
+      | _ => none
+    | ['B', c] =>
+      let op? : Option Spec.Arith.BinOp := match c with
+        | '+' => some .add | '-' => some .sub | '*' => some .mul | '/' => some .div | '^' => some .pow
+        | _ => none
+      match op? with
+      | none => none
+      | some op =>
+        match parseQExpr rest with
+        | none => none
+        | some (a, rest) =>
+          match parseQExpr rest with
+          | none => none
+          | some (b, rest) => some (.bin op a b, rest)
+    | ['P'] =>
+      match parseQExpr rest with
+      | none => none
+      | some (e, rest) => some (.paren e, rest)
+    | 'T' :: ts =>
+      match parseQExpr rest with
+      | none => none
+      | some (e, rest) => some (.cast e (parseTerms (String.ofList ts)), rest)
+    | 'F' :: h =>
+      match (String.ofList h).splitOn ";" with
+      | [ph, v, u] => some (.fact (hexDecode ph) (parseRat v) (parseCanonTriples u), rest)
+      | _ => none
+    | _ => none
+
+def dimsStr (d : Spec.SI.DimVec) : String := ",".intercalate (d.map toString)
+
+def semCanon (sem : Spec.SI.UnitSem) : String :=
+  -- the canonical unit the tool is expected to report for a cast / adopted unit
+  unitCanon (sem.foldl (fun (c : Compound) t =>
+    match AMap.get? c t.key with
+    | none => AMap.insert c t.key { power := t.power, pfx := t.pfx }
+    | some st => if st.power + t.power = 0 then AMap.erase c t.key
+                 else AMap.insert c t.key { st with power := st.power + t.power }) [])
+
+def cmdQExpr (toks : List String) : String :=
+  match parseQExpr toks with
+  | none => "E BAD"
+  | some (e, rest) =>
+    let layout : List (List Char) := match rest with
+      | "|" :: ws => ws.map hexDecode
+      | _ => []
+    let text := Spec.Quantity.renderQuery e layout
+    let show1 (r : Except Spec.SI.QErr Spec.Quantity.Val) : String := match r with
+      | .ok v =>
+        let u := match v.unit with | some sem => semCanon sem | none => "?"
+        s!"OK {ratStr v.q.si} {dimsStr v.q.dim} {u}"
+      | .error err => s!"ERR {repr err}"
+    match Spec.Quantity.denote false e with
+    | .error .offsetScale =>
+      -- C09 allows refusal or the interval reading for compound uses of an offset scale
+      s!"E {hexEncode text} ERR offsetScale alt {show1 (Spec.Quantity.denote true e)}"
+    | r => s!"E {hexEncode text} {show1 r}"
+
+/-- `si <n/d> <canon unit>`: SI reading of a result (proportional part only). -/
+def cmdSi (v u : String) : String :=
+  let triples := parseCanonTriples u
+  let q := Spec.SI.siOfResult (parseRat v) triples
+  -- a lone offset scale with power one is a point on that scale
+  let si := match triples with
+    | [(k, 1, x)] => if Spec.SI.isAffine k then Spec.SI.pointToKelvin k x (parseRat v) else q.si
+    | _ => q.si
+  s!"Q {ratStr si} {dimsStr q.dim}"
+
+/-- Vocabulary dump for the generators: one record per literal, `;`-separated. -/
+def cmdVocab : String :=
+  let names := Generated.unitsOnly.filterMap fun (lit, act) =>
+    match act with
+    | .unit k bias =>
+      some s!"N {hexEncode lit} {k.show} {bias} {dimsStr (Spec.SI.dimsOf k)} {ratStr (Spec.SI.linFactor k)} {if Spec.SI.isAffine k then 1 else 0}"
+    | _ => none
+  let pfxs := Generated.combined.filterMap fun (lit, act) =>
+    match act with
+    | .pfx p alone => some s!"P {hexEncode lit} {p} {if alone.isSome then 1 else 0}"
+    | _ => none
+  let comb := Generated.combined.filterMap fun (lit, act) =>
+    match act with
+    | .unit k bias => some s!"C {hexEncode lit} {k.show} {bias}"
+    | _ => none
+  "V " ++ ";".intercalate (names ++ pfxs ++ comb)
+
+def cmdWord (src : List Char) : String :=
+  match UnitWord.parseWord src with
+  | some l => "W " ++ (if l.isEmpty then "-" else ",".intercalate (l.map fun (p, k) => s!"{p}:{k.show}"))
+  | none => "W NONE"
+
 def cmdExpr (toks : List String) : String :=
   match parseExpr toks with
   | none => "E BAD"
@@ -240,6 +360,10 @@ def dispatch (tbl : DbTable) (line : String) : String :=
   match parts with
   | ["lex", h] => cmdLex (hexDecode h) ++ "\t" ++ specLex (hexDecode h)
   | "expr" :: toks => cmdExpr toks
+  | "qexpr" :: toks => cmdQExpr toks
+  | ["si", v, u] => cmdSi v u
+  | ["vocab"] => cmdVocab
+  | ["word", h] => cmdWord (hexDecode h)
   | ["tree", h] => cmdTree (hexDecode h) false ++ "\t" ++ specTree (hexDecode h)
   | ["utree", h] => cmdTree (hexDecode h) true
   | ["phrases", h] => cmdPhrases (hexDecode h)
